@@ -32,11 +32,12 @@ type hist struct {
 	Initial string   // empty | partial | complete
 	Slow    string   // none | open | read | write
 	Stopped string   // tracker's answer to event=stopped: ok | slow | silent
+	Dial1   bool     // MaxPeerDial=1: with three seeders on offer two addresses stay queued
 	Steps   []string // start stop verify announce addpeer addtracker stats wait mutate-corrupt mutate-truncate mutate-delete-one mutate-delete-all reopen remove pause1
 }
 
 func (h hist) String() string {
-	return fmt.Sprintf("init=%s slow=%s tracker-stopped=%s steps=%s", h.Initial, h.Slow, h.Stopped, strings.Join(h.Steps, ","))
+	return fmt.Sprintf("init=%s slow=%s tracker-stopped=%s dial1=%v steps=%s", h.Initial, h.Slow, h.Stopped, h.Dial1, strings.Join(h.Steps, ","))
 }
 
 // shape: the history with waits/stats/pauses dropped - used in finding signatures
@@ -44,7 +45,7 @@ func (h hist) shape() string {
 	var o []string
 	for _, s := range h.Steps {
 		switch s {
-		case "stats", "pause1", "announce", "addtracker":
+		case "stats", "pause1", "pause2", "announce", "addtracker":
 		default:
 			o = append(o, s)
 		}
@@ -53,7 +54,7 @@ func (h hist) shape() string {
 }
 
 var core = []string{"start", "stop", "verify", "mutate-delete-all", "wait"}
-var full = []string{"start", "stop", "verify", "announce", "addpeer", "addtracker", "stats", "wait", "mutate-corrupt", "mutate-truncate", "mutate-delete-one", "mutate-delete-all", "reopen", "pause1", "wait", "start", "stop"}
+var full = []string{"start", "stop", "verify", "announce", "addpeer", "addtracker", "stats", "wait", "mutate-corrupt", "mutate-truncate", "mutate-delete-one", "mutate-delete-all", "reopen", "pause1", "pause2", "wait", "start", "stop"}
 
 func enumerate(maxLen int) []hist {
 	var out []hist
@@ -62,7 +63,7 @@ func enumerate(maxLen int) []hist {
 		if len(steps) > 0 {
 			for _, ini := range []string{"empty", "partial", "complete"} {
 				for _, slow := range []string{"none", "open"} {
-					out = append(out, hist{Initial: ini, Slow: slow, Stopped: "ok", Steps: append([]string(nil), steps...)})
+					out = append(out, hist{Initial: ini, Slow: slow, Stopped: "ok", Dial1: len(out)%2 == 1, Steps: append([]string(nil), steps...)})
 				}
 			}
 		}
@@ -92,11 +93,16 @@ func regressions() []hist {
 		{Initial: "partial", Slow: "read", Stopped: "ok", Steps: []string{"start", "pause1", "stop", "wait", "start", "wait"}},
 		{Initial: "complete", Slow: "none", Stopped: "slow", Steps: []string{"start", "wait", "verify", "stop", "wait", "start", "wait"}},
 		{Initial: "complete", Slow: "none", Stopped: "ok", Steps: []string{"start", "wait", "reopen", "wait", "stop", "wait"}},
+		{Initial: "empty", Slow: "write", Stopped: "ok", Dial1: true, Steps: []string{"start", "addpeer", "pause2", "stop", "wait"}},
+		{Initial: "partial", Slow: "write", Stopped: "slow", Dial1: true, Steps: []string{"start", "pause2", "addpeer", "pause2", "stop", "pause2", "stats", "wait"}},
+		{Initial: "empty", Slow: "write", Stopped: "silent", Dial1: true, Steps: []string{"start", "addpeer", "pause2", "stop", "pause1", "stats", "wait", "start", "addpeer", "pause2", "verify", "wait"}},
+		{Initial: "partial", Slow: "none", Stopped: "ok", Dial1: true, Steps: []string{"start", "addpeer", "wait", "addpeer", "stop", "wait"}},
 	}
 }
 
 func randomHist(r *rand.Rand) hist {
 	h := hist{Initial: []string{"empty", "partial", "complete"}[r.Intn(3)], Slow: []string{"none", "none", "open", "read", "write"}[r.Intn(5)], Stopped: []string{"ok", "ok", "slow", "silent"}[r.Intn(4)]}
+	h.Dial1 = r.Intn(2) == 0
 	n := 3 + r.Intn(8)
 	for i := 0; i < n; i++ {
 		h.Steps = append(h.Steps, full[r.Intn(len(full))])
@@ -119,6 +125,7 @@ type env struct {
 	tid     string
 	log     *evlog.Log
 	seeder  *refpeer.Listener
+	extra   []*refpeer.Listener // further honest seeders: with MaxPeerDial=1 their addresses stay queued
 	trk     *reftracker.HTTP
 	trk2    *reftracker.HTTP
 	wantRun int // 1 running, 0 stopped, -1 unknown
@@ -299,11 +306,21 @@ func (e *env) settle(when string) {
 	e.verifyPending = false
 }
 
+func (e *env) addPeers() {
+	e.t.AddPeer(e.seeder.Addr().String())
+	for _, ln := range e.extra {
+		e.t.AddPeer(ln.Addr().String())
+	}
+}
+
 func (e *env) applySlow(on bool) { e.smu.Lock(); e.slowOn = on; e.smu.Unlock() }
 
 func (e *env) startSession() bool {
 	s, cfg, err := sess.New(sess.Opts{Dir: e.dir, Storage: e.prov, Mutate: func(c *torrent.Config) {
 		c.TrackerStopTimeout = 300 * time.Millisecond
+		if e.h.Dial1 {
+			c.MaxPeerDial = 1
+		}
 		if e.cfg.Host != "" {
 			c.Host = e.cfg.Host
 			c.PortBegin, c.PortEnd = e.cfg.PortBegin, e.cfg.PortEnd
@@ -413,33 +430,42 @@ func runHistory(k int, h hist) {
 	}
 	ct := sess.ContentOf(e.l, e.truth)
 	ih := gen.InfoHash(e.info)
-	var pid [20]byte
-	copy(pid[:], fmt.Sprintf("-RF0004-%012d", k))
-	e.wg.Add(1)
-	go func() {
-		defer e.wg.Done()
-		for {
-			select {
-			case <-e.stopAcc:
-				return
-			default:
+	serve := func(ln *refpeer.Listener, n int) {
+		var pid [20]byte
+		copy(pid[:], fmt.Sprintf("-RF0004-%02d%010d", n, k))
+		e.wg.Add(1)
+		go func() {
+			defer e.wg.Done()
+			for {
+				select {
+				case <-e.stopAcc:
+					return
+				default:
+				}
+				c, err := ln.Accept(refpeer.HSOpts{InfoHash: ih, PeerID: pid, Fast: true, Ext: true, Crypto: "auto", Seed: int64(k)}, 300*time.Millisecond)
+				if err != nil {
+					continue
+				}
+				stt := &refpeer.SeederState{}
+				e.smu.Lock()
+				e.states = append(e.states, stt)
+				e.smu.Unlock()
+				e.wg.Add(1)
+				go func() {
+					defer e.wg.Done()
+					refpeer.RunSeeder(c, refpeer.SeederCfg{Content: ct, Announce: "bitfield", Unchoke: "on-interested"}, stt)
+					c.Close()
+				}()
 			}
-			c, err := e.seeder.Accept(refpeer.HSOpts{InfoHash: ih, PeerID: pid, Fast: true, Ext: true, Crypto: "auto", Seed: int64(k)}, 300*time.Millisecond)
-			if err != nil {
-				continue
-			}
-			stt := &refpeer.SeederState{}
-			e.smu.Lock()
-			e.states = append(e.states, stt)
-			e.smu.Unlock()
-			e.wg.Add(1)
-			go func() {
-				defer e.wg.Done()
-				refpeer.RunSeeder(c, refpeer.SeederCfg{Content: ct, Announce: "bitfield", Unchoke: "on-interested"}, stt)
-				c.Close()
-			}()
+		}()
+	}
+	serve(e.seeder, 0)
+	for i := 0; i < 2; i++ {
+		if ln, err := refpeer.Listen(fmt.Sprintf("seed%d", i+1), sess.NextIP(), e.log); err == nil {
+			e.extra = append(e.extra, ln)
+			serve(ln, i+1)
 		}
-	}()
+	}
 	e.reqSeen = func() int {
 		e.smu.Lock()
 		defer e.smu.Unlock()
@@ -454,6 +480,9 @@ func runHistory(k int, h hist) {
 	defer func() {
 		close(e.stopAcc)
 		e.seeder.Close()
+		for _, ln := range e.extra {
+			ln.Close()
+		}
 		e.wg.Wait()
 	}()
 	if !e.startSession() {
@@ -501,7 +530,7 @@ func runHistory(k int, h hist) {
 		case "announce":
 			ok = e.call("Announce", func() { e.t.Announce() })
 		case "addpeer":
-			ok = e.call("AddPeer", func() { e.t.AddPeer(e.seeder.Addr().String()) })
+			ok = e.call("AddPeer", func() { e.addPeers() })
 		case "addtracker":
 			if e.trk2 != nil {
 				ok = e.call("AddTracker", func() { e.t.AddTracker(e.trk2.URL) })
@@ -509,6 +538,8 @@ func runHistory(k int, h hist) {
 		case "stats":
 		case "pause1":
 			time.Sleep(time.Duration(1+r.Intn(40)) * time.Millisecond)
+		case "pause2":
+			time.Sleep(time.Duration(120+r.Intn(100)) * time.Millisecond)
 		case "wait":
 			reqBefore := e.reqSeen()
 			wasVerify := e.verifyPending
@@ -588,12 +619,12 @@ func runHistory(k int, h hist) {
 		if len(e.viol) == 0 {
 			if e.call("Start", func() { e.t.Start() }) {
 				e.wantRun = 1
-				e.call("AddPeer", func() { e.t.AddPeer(e.seeder.Addr().String()) })
+				e.call("AddPeer", func() { e.addPeers() })
 				t0 := time.Now()
 				done := sess.WaitFor(40*time.Second, func() bool {
 					st := e.t.Stats()
 					if st.Status != torrent.Seeding && st.Status != torrent.Stopped {
-						e.t.AddPeer(e.seeder.Addr().String())
+						e.addPeers()
 					}
 					return st.Status == torrent.Seeding
 				})
